@@ -18,6 +18,7 @@ Per rule: `shippedRule_paragraphs_separately` by name, and one corollary per rul
 -/
 namespace Harper.C12
 open Harper Harper.Chunks Harper.Rules Harper.Leaves Harper.PatternRules
+open Harper.C02 (asciiCls)
 
 /-- **`match_to_lint` moves with its match** -/
 theorem matchToLint_translation (env : Env) (s : Spec) (hg : s.Good) (P D : List Char) (matched : List Tok) (j : Nat) :
@@ -28,6 +29,17 @@ theorem matchToLint_translation (env : Env) (s : Spec) (hg : s.Good) (P D : List
 theorem matchToLint_left (env : Env) (s : Spec) (hg : s.Good) (P D : List Char) (matched : List Tok)
     (h : ∀ t ∈ matched, tokOK t = true ∧ t.span.stop ≤ P.length) : s.run env (P ++ D) matched = s.run env P matched :=
   Spec.run_left env s hg P D matched h
+
+/-- non-vacuity of `matchToLint_translation` / `matchToLint_left`: Whereas' spec is `Good`; its lint on `where as` behind
+`ok.¶¶` is the lint on `where as` moved by 5, and text behind `where as` does not change it -/
+example : specWhereas.run env0 (c!"ok.xx" ++ c!"where as") (shiftDoc 5 3 [⟨⟨0, 5⟩, .word⟩, ⟨⟨5, 6⟩, .space 1⟩, ⟨⟨6, 8⟩, .word⟩]) =
+      .ok [⟨⟨5, 13⟩, [.replaceWith c!"whereas"], 31, 0⟩] ∧
+    specWhereas.run env0 (c!"where as" ++ c!" ok") [⟨⟨0, 5⟩, .word⟩, ⟨⟨5, 6⟩, .space 1⟩, ⟨⟨6, 8⟩, .word⟩] =
+      .ok [⟨⟨0, 8⟩, [.replaceWith c!"whereas"], 31, 0⟩] :=
+  have h : specWhereas.run env0 c!"where as" [⟨⟨0, 5⟩, .word⟩, ⟨⟨5, 6⟩, .space 1⟩, ⟨⟨6, 8⟩, .word⟩] =
+      .ok [⟨⟨0, 8⟩, [.replaceWith c!"whereas"], 31, 0⟩] := by decide
+  ⟨(matchToLint_translation env0 _ fineWhereas.good c!"ok.xx" c!"where as" _ 3).trans (by rw [h]; rfl),
+    (matchToLint_left env0 _ fineWhereas.good c!"where as" c!" ok" _ (by decide)).trans h⟩
 
 /-- **chunk-locality of every fine rule**: nothing on the empty chunk; text after the chunk does not matter; moving the
 chunk with its text moves the lints — panics included -/
@@ -52,6 +64,39 @@ theorem shippedRule_paragraphs_separately (env : Env) (name : String) (r : PRule
         (docRule cls extD (r.rule env) D) :=
   patternRule_paragraphs_separately env r (fine_of_name name r hn) cls P0 D k extP extD extPD h
 
+/-- `ParagraphPair` for the ASCII class table and no url / e-mail / hostname lexer: three decidable conditions on the two
+texts are left -/
+theorem paragraphPair_ascii_noExt (P0 D : List Char) (h1 : NoNlEnd P0) (h2 : D.head? ≠ some '\n')
+    (h3 : NoQuoteChars (P0 ++ List.replicate 2 '\n')) : ParagraphPair asciiCls P0 D 2 noExt noExt noExt where
+  cls_ok := ⟨by decide, by decide, by
+    intro c h
+    simp only [asciiCls, isAsciiDigit, Bool.and_eq_true, decide_eq_true_eq] at h
+    refine ⟨?_, ?_, ?_⟩
+    · simp only [isAsciiAlpha, Bool.or_eq_false_iff, Bool.and_eq_false_imp, decide_eq_true_eq, decide_eq_false_iff_not]
+      constructor <;> intro h3 <;> intro h4
+      · exact absurd (Char.le_trans h3 h.2) (by decide)
+      · exact absurd (Char.le_trans h3 h.2) (by decide)
+    · intro hc; subst hc; exact absurd h.1 (by decide)
+    · intro hc; subst hc; exact absurd h.1 (by decide)⟩
+  two := Nat.le_refl 2
+  no_nl_end := h1
+  d_head := h2
+  no_quotes := h3
+  ext_local := ⟨fun _ _ => rfl, fun _ => rfl⟩
+  ext_ok_p := by intro _ _ _ h; cases h
+  ext_ok_d := by intro _ _ _ h; cases h
+  ext_no_nl := by intro _ _ _ h; cases h
+
+/-- non-vacuity of `patternRule_xlocal` / `patternRule_appends` / `patternRule_paragraphs_separately` /
+`shippedRule_paragraphs_separately` and of the 28 corollaries below (their one hypothesis does not mention the rule):
+`"Dashes"` is in the table and `Fine`; `a--b.¶¶` + `c---d` is a `ParagraphPair`, and `Where as.¶¶` + `so  what` another
+(the lints of Dashes and Whereas on the first pair, in both paragraphs: the examples at the end of this file) -/
+example : patternRuleByName "Dashes" = some ⟨patDashes, specDashes⟩ ∧ Fine ⟨patDashes, specDashes⟩ ∧
+    ParagraphPair asciiCls c!"a--b." c!"c---d" 2 noExt noExt noExt ∧
+    ParagraphPair asciiCls c!"Where as." c!"so  what" 2 noExt noExt noExt :=
+  ⟨rfl, fineDashes, paragraphPair_ascii_noExt _ _ (by decide) (by decide) (by decide),
+    paragraphPair_ascii_noExt _ _ (by decide) (by decide) (by decide)⟩
+
 /-! ## one corollary per rule -/
 
 theorem backInTheDay_paragraphs_separately (env : Env) (cls : Cls) (P0 D : List Char) (k : Nat) (extP extD extPD : Ext)
@@ -60,168 +105,336 @@ theorem backInTheDay_paragraphs_separately (env : Env) (cls : Cls) (P0 D : List 
       joinE (P0 ++ List.replicate k '\n').length (docRule cls extP (PRule.rule env ⟨patBackInTheDay, specBackInTheDay⟩) (P0 ++ List.replicate k '\n'))
         (docRule cls extD (PRule.rule env ⟨patBackInTheDay, specBackInTheDay⟩) D) :=
   patternRule_paragraphs_separately env _ fineBackInTheDay cls P0 D k extP extD extPD h
+/-- `BackInTheDay` fires in both paragraphs: tokens tiling `back in the days.¶¶` (the last one the `ParagraphBreak`) and `back in the days`, the second list moved by 19 — the premises of `Appends` hold -/
+example : (∀ t ∈ [⟨⟨0, 4⟩, .word⟩, ⟨⟨4, 5⟩, .space 1⟩, ⟨⟨5, 7⟩, .word⟩, ⟨⟨7, 8⟩, .space 1⟩, ⟨⟨8, 11⟩, .word⟩, ⟨⟨11, 12⟩, .space 1⟩, ⟨⟨12, 16⟩, .word⟩, ⟨⟨16, 17⟩, .punct .Period⟩, ⟨⟨17, 19⟩, .paragraphBreak⟩], tokOK t = true ∧ t.span.stop ≤ 19) ∧
+    (∀ t ∈ [⟨⟨0, 4⟩, .word⟩, ⟨⟨4, 5⟩, .space 1⟩, ⟨⟨5, 7⟩, .word⟩, ⟨⟨7, 8⟩, .space 1⟩, ⟨⟨8, 11⟩, .word⟩, ⟨⟨11, 12⟩, .space 1⟩, ⟨⟨12, 16⟩, .word⟩], tokOK t = true) ∧
+    PRule.rule env0 ⟨patBackInTheDay, specBackInTheDay⟩ ((c!"back in the days." ++ ['\n', '\n']) ++ c!"back in the days")
+      ([⟨⟨0, 4⟩, .word⟩, ⟨⟨4, 5⟩, .space 1⟩, ⟨⟨5, 7⟩, .word⟩, ⟨⟨7, 8⟩, .space 1⟩, ⟨⟨8, 11⟩, .word⟩, ⟨⟨11, 12⟩, .space 1⟩, ⟨⟨12, 16⟩, .word⟩, ⟨⟨16, 17⟩, .punct .Period⟩, ⟨⟨17, 19⟩, .paragraphBreak⟩] ++ shiftDoc 19 9 [⟨⟨0, 4⟩, .word⟩, ⟨⟨4, 5⟩, .space 1⟩, ⟨⟨5, 7⟩, .word⟩, ⟨⟨7, 8⟩, .space 1⟩, ⟨⟨8, 11⟩, .word⟩, ⟨⟨11, 12⟩, .space 1⟩, ⟨⟨12, 16⟩, .word⟩]) =
+      .ok [⟨⟨0, 16⟩, [.replaceWith c!"back in the day"], 20, 0⟩, ⟨⟨19, 35⟩, [.replaceWith c!"back in the day"], 20, 0⟩] := by decide
 theorem dashes_paragraphs_separately (env : Env) (cls : Cls) (P0 D : List Char) (k : Nat) (extP extD extPD : Ext)
     (h : ParagraphPair cls P0 D k extP extD extPD) :
     docRule cls extPD (PRule.rule env ⟨patDashes, specDashes⟩) ((P0 ++ List.replicate k '\n') ++ D) =
       joinE (P0 ++ List.replicate k '\n').length (docRule cls extP (PRule.rule env ⟨patDashes, specDashes⟩) (P0 ++ List.replicate k '\n'))
         (docRule cls extD (PRule.rule env ⟨patDashes, specDashes⟩) D) :=
   patternRule_paragraphs_separately env _ fineDashes cls P0 D k extP extD extPD h
+/-- `Dashes` fires in both paragraphs: tokens tiling `a--b.¶¶` (the last one the `ParagraphBreak`) and `a--b`, the second list moved by 7 — the premises of `Appends` hold -/
+example : (∀ t ∈ [⟨⟨0, 1⟩, .word⟩, ⟨⟨1, 2⟩, .punct .Hyphen⟩, ⟨⟨2, 3⟩, .punct .Hyphen⟩, ⟨⟨3, 5⟩, .word⟩, ⟨⟨5, 7⟩, .paragraphBreak⟩], tokOK t = true ∧ t.span.stop ≤ 7) ∧
+    (∀ t ∈ [⟨⟨0, 1⟩, .word⟩, ⟨⟨1, 2⟩, .punct .Hyphen⟩, ⟨⟨2, 3⟩, .punct .Hyphen⟩, ⟨⟨3, 4⟩, .word⟩], tokOK t = true) ∧
+    PRule.rule env0 ⟨patDashes, specDashes⟩ ((c!"a--b." ++ ['\n', '\n']) ++ c!"a--b")
+      ([⟨⟨0, 1⟩, .word⟩, ⟨⟨1, 2⟩, .punct .Hyphen⟩, ⟨⟨2, 3⟩, .punct .Hyphen⟩, ⟨⟨3, 5⟩, .word⟩, ⟨⟨5, 7⟩, .paragraphBreak⟩] ++ shiftDoc 7 5 [⟨⟨0, 1⟩, .word⟩, ⟨⟨1, 2⟩, .punct .Hyphen⟩, ⟨⟨2, 3⟩, .punct .Hyphen⟩, ⟨⟨3, 4⟩, .word⟩]) =
+      .ok [⟨⟨1, 3⟩, [.replaceWith ['–']], 21, 2⟩, ⟨⟨8, 10⟩, [.replaceWith ['–']], 21, 2⟩] := by decide
 theorem outOfDate_paragraphs_separately (env : Env) (cls : Cls) (P0 D : List Char) (k : Nat) (extP extD extPD : Ext)
     (h : ParagraphPair cls P0 D k extP extD extPD) :
     docRule cls extPD (PRule.rule env ⟨patOutOfDate, specOutOfDate⟩) ((P0 ++ List.replicate k '\n') ++ D) =
       joinE (P0 ++ List.replicate k '\n').length (docRule cls extP (PRule.rule env ⟨patOutOfDate, specOutOfDate⟩) (P0 ++ List.replicate k '\n'))
         (docRule cls extD (PRule.rule env ⟨patOutOfDate, specOutOfDate⟩) D) :=
   patternRule_paragraphs_separately env _ fineOutOfDate cls P0 D k extP extD extPD h
+/-- `OutOfDate` fires in both paragraphs: tokens tiling `out of date.¶¶` (the last one the `ParagraphBreak`) and `out of date`, the second list moved by 14 — the premises of `Appends` hold -/
+example : (∀ t ∈ [⟨⟨0, 3⟩, .word⟩, ⟨⟨3, 4⟩, .space 1⟩, ⟨⟨4, 6⟩, .word⟩, ⟨⟨6, 7⟩, .space 1⟩, ⟨⟨7, 11⟩, .word⟩, ⟨⟨11, 12⟩, .punct .Period⟩, ⟨⟨12, 14⟩, .paragraphBreak⟩], tokOK t = true ∧ t.span.stop ≤ 14) ∧
+    (∀ t ∈ [⟨⟨0, 3⟩, .word⟩, ⟨⟨3, 4⟩, .space 1⟩, ⟨⟨4, 6⟩, .word⟩, ⟨⟨6, 7⟩, .space 1⟩, ⟨⟨7, 11⟩, .word⟩], tokOK t = true) ∧
+    PRule.rule env0 ⟨patOutOfDate, specOutOfDate⟩ ((c!"out of date." ++ ['\n', '\n']) ++ c!"out of date")
+      ([⟨⟨0, 3⟩, .word⟩, ⟨⟨3, 4⟩, .space 1⟩, ⟨⟨4, 6⟩, .word⟩, ⟨⟨6, 7⟩, .space 1⟩, ⟨⟨7, 11⟩, .word⟩, ⟨⟨11, 12⟩, .punct .Period⟩, ⟨⟨12, 14⟩, .paragraphBreak⟩] ++ shiftDoc 14 7 [⟨⟨0, 3⟩, .word⟩, ⟨⟨3, 4⟩, .space 1⟩, ⟨⟨4, 6⟩, .word⟩, ⟨⟨6, 7⟩, .space 1⟩, ⟨⟨7, 11⟩, .word⟩]) =
+      .ok [⟨⟨0, 11⟩, [.replaceWith c!"out-of-date"], 22, 0⟩, ⟨⟨14, 25⟩, [.replaceWith c!"out-of-date"], 22, 0⟩] := by decide
 theorem thenThan_paragraphs_separately (env : Env) (cls : Cls) (P0 D : List Char) (k : Nat) (extP extD extPD : Ext)
     (h : ParagraphPair cls P0 D k extP extD extPD) :
     docRule cls extPD (PRule.rule env ⟨patThenThan, specThenThan⟩) ((P0 ++ List.replicate k '\n') ++ D) =
       joinE (P0 ++ List.replicate k '\n').length (docRule cls extP (PRule.rule env ⟨patThenThan, specThenThan⟩) (P0 ++ List.replicate k '\n'))
         (docRule cls extD (PRule.rule env ⟨patThenThan, specThenThan⟩) D) :=
   patternRule_paragraphs_separately env _ fineThenThan cls P0 D k extP extD extPD h
+/-- `ThenThan` fires in both paragraphs: tokens tiling `bigger then you.¶¶` (the last one the `ParagraphBreak`) and `bigger then you`, the second list moved by 18 — the premises of `Appends` hold -/
+example : (∀ t ∈ [⟨⟨0, 6⟩, .word⟩, ⟨⟨6, 7⟩, .space 1⟩, ⟨⟨7, 11⟩, .word⟩, ⟨⟨11, 12⟩, .space 1⟩, ⟨⟨12, 15⟩, .word⟩, ⟨⟨15, 16⟩, .punct .Period⟩, ⟨⟨16, 18⟩, .paragraphBreak⟩], tokOK t = true ∧ t.span.stop ≤ 18) ∧
+    (∀ t ∈ [⟨⟨0, 6⟩, .word⟩, ⟨⟨6, 7⟩, .space 1⟩, ⟨⟨7, 11⟩, .word⟩, ⟨⟨11, 12⟩, .space 1⟩, ⟨⟨12, 15⟩, .word⟩], tokOK t = true) ∧
+    PRule.rule { env0 with wordFlags := fun w => if w == c!"bigger" then 8 else 0 } ⟨patThenThan, specThenThan⟩ ((c!"bigger then you." ++ ['\n', '\n']) ++ c!"bigger then you")
+      ([⟨⟨0, 6⟩, .word⟩, ⟨⟨6, 7⟩, .space 1⟩, ⟨⟨7, 11⟩, .word⟩, ⟨⟨11, 12⟩, .space 1⟩, ⟨⟨12, 15⟩, .word⟩, ⟨⟨15, 16⟩, .punct .Period⟩, ⟨⟨16, 18⟩, .paragraphBreak⟩] ++ shiftDoc 18 7 [⟨⟨0, 6⟩, .word⟩, ⟨⟨6, 7⟩, .space 1⟩, ⟨⟨7, 11⟩, .word⟩, ⟨⟨11, 12⟩, .space 1⟩, ⟨⟨12, 15⟩, .word⟩]) =
+      .ok [⟨⟨7, 11⟩, [.replaceWith c!"than"], 23, 0⟩, ⟨⟨25, 29⟩, [.replaceWith c!"than"], 23, 0⟩] := by decide
 theorem piqueInterest_paragraphs_separately (env : Env) (cls : Cls) (P0 D : List Char) (k : Nat) (extP extD extPD : Ext)
     (h : ParagraphPair cls P0 D k extP extD extPD) :
     docRule cls extPD (PRule.rule env ⟨patPiqueInterest, specPiqueInterest⟩) ((P0 ++ List.replicate k '\n') ++ D) =
       joinE (P0 ++ List.replicate k '\n').length (docRule cls extP (PRule.rule env ⟨patPiqueInterest, specPiqueInterest⟩) (P0 ++ List.replicate k '\n'))
         (docRule cls extD (PRule.rule env ⟨patPiqueInterest, specPiqueInterest⟩) D) :=
   patternRule_paragraphs_separately env _ finePiqueInterest cls P0 D k extP extD extPD h
+/-- `PiqueInterest` fires in both paragraphs: tokens tiling `peak my interest.¶¶` (the last one the `ParagraphBreak`) and `peak my interest`, the second list moved by 19 — the premises of `Appends` hold -/
+example : (∀ t ∈ [⟨⟨0, 4⟩, .word⟩, ⟨⟨4, 5⟩, .space 1⟩, ⟨⟨5, 7⟩, .word⟩, ⟨⟨7, 8⟩, .space 1⟩, ⟨⟨8, 16⟩, .word⟩, ⟨⟨16, 17⟩, .punct .Period⟩, ⟨⟨17, 19⟩, .paragraphBreak⟩], tokOK t = true ∧ t.span.stop ≤ 19) ∧
+    (∀ t ∈ [⟨⟨0, 4⟩, .word⟩, ⟨⟨4, 5⟩, .space 1⟩, ⟨⟨5, 7⟩, .word⟩, ⟨⟨7, 8⟩, .space 1⟩, ⟨⟨8, 16⟩, .word⟩], tokOK t = true) ∧
+    PRule.rule { env0 with wordFlags := fun w => if w == c!"my" then 16384 else 0 } ⟨patPiqueInterest, specPiqueInterest⟩ ((c!"peak my interest." ++ ['\n', '\n']) ++ c!"peak my interest")
+      ([⟨⟨0, 4⟩, .word⟩, ⟨⟨4, 5⟩, .space 1⟩, ⟨⟨5, 7⟩, .word⟩, ⟨⟨7, 8⟩, .space 1⟩, ⟨⟨8, 16⟩, .word⟩, ⟨⟨16, 17⟩, .punct .Period⟩, ⟨⟨17, 19⟩, .paragraphBreak⟩] ++ shiftDoc 19 7 [⟨⟨0, 4⟩, .word⟩, ⟨⟨4, 5⟩, .space 1⟩, ⟨⟨5, 7⟩, .word⟩, ⟨⟨7, 8⟩, .space 1⟩, ⟨⟨8, 16⟩, .word⟩]) =
+      .ok [⟨⟨0, 4⟩, [.replaceWith c!"pique"], 24, 0⟩, ⟨⟨19, 23⟩, [.replaceWith c!"pique"], 24, 0⟩] := by decide
 theorem wasAloud_paragraphs_separately (env : Env) (cls : Cls) (P0 D : List Char) (k : Nat) (extP extD extPD : Ext)
     (h : ParagraphPair cls P0 D k extP extD extPD) :
     docRule cls extPD (PRule.rule env ⟨patWasAloud, specWasAloud⟩) ((P0 ++ List.replicate k '\n') ++ D) =
       joinE (P0 ++ List.replicate k '\n').length (docRule cls extP (PRule.rule env ⟨patWasAloud, specWasAloud⟩) (P0 ++ List.replicate k '\n'))
         (docRule cls extD (PRule.rule env ⟨patWasAloud, specWasAloud⟩) D) :=
   patternRule_paragraphs_separately env _ fineWasAloud cls P0 D k extP extD extPD h
+/-- `WasAloud` fires in both paragraphs: tokens tiling `was aloud.¶¶` (the last one the `ParagraphBreak`) and `was aloud`, the second list moved by 12 — the premises of `Appends` hold -/
+example : (∀ t ∈ [⟨⟨0, 3⟩, .word⟩, ⟨⟨3, 4⟩, .space 1⟩, ⟨⟨4, 9⟩, .word⟩, ⟨⟨9, 10⟩, .punct .Period⟩, ⟨⟨10, 12⟩, .paragraphBreak⟩], tokOK t = true ∧ t.span.stop ≤ 12) ∧
+    (∀ t ∈ [⟨⟨0, 3⟩, .word⟩, ⟨⟨3, 4⟩, .space 1⟩, ⟨⟨4, 9⟩, .word⟩], tokOK t = true) ∧
+    PRule.rule env0 ⟨patWasAloud, specWasAloud⟩ ((c!"was aloud." ++ ['\n', '\n']) ++ c!"was aloud")
+      ([⟨⟨0, 3⟩, .word⟩, ⟨⟨3, 4⟩, .space 1⟩, ⟨⟨4, 9⟩, .word⟩, ⟨⟨9, 10⟩, .punct .Period⟩, ⟨⟨10, 12⟩, .paragraphBreak⟩] ++ shiftDoc 12 5 [⟨⟨0, 3⟩, .word⟩, ⟨⟨3, 4⟩, .space 1⟩, ⟨⟨4, 9⟩, .word⟩]) =
+      .ok [⟨⟨0, 9⟩, [.replaceWith c!"was allowed"], 25, 0⟩, ⟨⟨12, 21⟩, [.replaceWith c!"was allowed"], 25, 0⟩] := by decide
 theorem hyphenateNumberDay_paragraphs_separately (env : Env) (cls : Cls) (P0 D : List Char) (k : Nat) (extP extD extPD : Ext)
     (h : ParagraphPair cls P0 D k extP extD extPD) :
     docRule cls extPD (PRule.rule env ⟨patHyphenateNumberDay, specHyphenateNumberDay⟩) ((P0 ++ List.replicate k '\n') ++ D) =
       joinE (P0 ++ List.replicate k '\n').length (docRule cls extP (PRule.rule env ⟨patHyphenateNumberDay, specHyphenateNumberDay⟩) (P0 ++ List.replicate k '\n'))
         (docRule cls extD (PRule.rule env ⟨patHyphenateNumberDay, specHyphenateNumberDay⟩) D) :=
   patternRule_paragraphs_separately env _ fineHyphenateNumberDay cls P0 D k extP extD extPD h
+/-- `HyphenateNumberDay` fires in both paragraphs: tokens tiling `5 day plan.¶¶` (the last one the `ParagraphBreak`) and `5 day plan`, the second list moved by 13 — the premises of `Appends` hold -/
+example : (∀ t ∈ [⟨⟨0, 1⟩, .number 10 none⟩, ⟨⟨1, 2⟩, .space 1⟩, ⟨⟨2, 5⟩, .word⟩, ⟨⟨5, 6⟩, .space 1⟩, ⟨⟨6, 10⟩, .word⟩, ⟨⟨10, 11⟩, .punct .Period⟩, ⟨⟨11, 13⟩, .paragraphBreak⟩], tokOK t = true ∧ t.span.stop ≤ 13) ∧
+    (∀ t ∈ [⟨⟨0, 1⟩, .number 10 none⟩, ⟨⟨1, 2⟩, .space 1⟩, ⟨⟨2, 5⟩, .word⟩, ⟨⟨5, 6⟩, .space 1⟩, ⟨⟨6, 10⟩, .word⟩], tokOK t = true) ∧
+    PRule.rule { env0 with wordFlags := fun w => if w == c!"plan" then 33088 else 0 } ⟨patHyphenateNumberDay, specHyphenateNumberDay⟩ ((c!"5 day plan." ++ ['\n', '\n']) ++ c!"5 day plan")
+      ([⟨⟨0, 1⟩, .number 10 none⟩, ⟨⟨1, 2⟩, .space 1⟩, ⟨⟨2, 5⟩, .word⟩, ⟨⟨5, 6⟩, .space 1⟩, ⟨⟨6, 10⟩, .word⟩, ⟨⟨10, 11⟩, .punct .Period⟩, ⟨⟨11, 13⟩, .paragraphBreak⟩] ++ shiftDoc 13 7 [⟨⟨0, 1⟩, .number 10 none⟩, ⟨⟨1, 2⟩, .space 1⟩, ⟨⟨2, 5⟩, .word⟩, ⟨⟨5, 6⟩, .space 1⟩, ⟨⟨6, 10⟩, .word⟩]) =
+      .ok [⟨⟨1, 2⟩, [.replaceWith c!"-"], 26, 0⟩, ⟨⟨14, 15⟩, [.replaceWith c!"-"], 26, 0⟩] := by decide
 theorem leftRightHand_paragraphs_separately (env : Env) (cls : Cls) (P0 D : List Char) (k : Nat) (extP extD extPD : Ext)
     (h : ParagraphPair cls P0 D k extP extD extPD) :
     docRule cls extPD (PRule.rule env ⟨patLeftRightHand, specLeftRightHand⟩) ((P0 ++ List.replicate k '\n') ++ D) =
       joinE (P0 ++ List.replicate k '\n').length (docRule cls extP (PRule.rule env ⟨patLeftRightHand, specLeftRightHand⟩) (P0 ++ List.replicate k '\n'))
         (docRule cls extD (PRule.rule env ⟨patLeftRightHand, specLeftRightHand⟩) D) :=
   patternRule_paragraphs_separately env _ fineLeftRightHand cls P0 D k extP extD extPD h
+/-- `LeftRightHand` fires in both paragraphs: tokens tiling `left hand side.¶¶` (the last one the `ParagraphBreak`) and `left hand side`, the second list moved by 17 — the premises of `Appends` hold -/
+example : (∀ t ∈ [⟨⟨0, 4⟩, .word⟩, ⟨⟨4, 5⟩, .space 1⟩, ⟨⟨5, 9⟩, .word⟩, ⟨⟨9, 10⟩, .space 1⟩, ⟨⟨10, 14⟩, .word⟩, ⟨⟨14, 15⟩, .punct .Period⟩, ⟨⟨15, 17⟩, .paragraphBreak⟩], tokOK t = true ∧ t.span.stop ≤ 17) ∧
+    (∀ t ∈ [⟨⟨0, 4⟩, .word⟩, ⟨⟨4, 5⟩, .space 1⟩, ⟨⟨5, 9⟩, .word⟩, ⟨⟨9, 10⟩, .space 1⟩, ⟨⟨10, 14⟩, .word⟩], tokOK t = true) ∧
+    PRule.rule { env0 with wordFlags := fun w => if w == c!"side" then 256 else 0 } ⟨patLeftRightHand, specLeftRightHand⟩ ((c!"left hand side." ++ ['\n', '\n']) ++ c!"left hand side")
+      ([⟨⟨0, 4⟩, .word⟩, ⟨⟨4, 5⟩, .space 1⟩, ⟨⟨5, 9⟩, .word⟩, ⟨⟨9, 10⟩, .space 1⟩, ⟨⟨10, 14⟩, .word⟩, ⟨⟨14, 15⟩, .punct .Period⟩, ⟨⟨15, 17⟩, .paragraphBreak⟩] ++ shiftDoc 17 7 [⟨⟨0, 4⟩, .word⟩, ⟨⟨4, 5⟩, .space 1⟩, ⟨⟨5, 9⟩, .word⟩, ⟨⟨9, 10⟩, .space 1⟩, ⟨⟨10, 14⟩, .word⟩]) =
+      .ok [⟨⟨4, 5⟩, [.replaceWith c!"-"], 27, 0⟩, ⟨⟨21, 22⟩, [.replaceWith c!"-"], 27, 0⟩] := by decide
 theorem hereby_paragraphs_separately (env : Env) (cls : Cls) (P0 D : List Char) (k : Nat) (extP extD extPD : Ext)
     (h : ParagraphPair cls P0 D k extP extD extPD) :
     docRule cls extPD (PRule.rule env ⟨patHereby, specHereby⟩) ((P0 ++ List.replicate k '\n') ++ D) =
       joinE (P0 ++ List.replicate k '\n').length (docRule cls extP (PRule.rule env ⟨patHereby, specHereby⟩) (P0 ++ List.replicate k '\n'))
         (docRule cls extD (PRule.rule env ⟨patHereby, specHereby⟩) D) :=
   patternRule_paragraphs_separately env _ fineHereby cls P0 D k extP extD extPD h
+/-- `Hereby` fires in both paragraphs: tokens tiling `here by go.¶¶` (the last one the `ParagraphBreak`) and `here by go`, the second list moved by 13 — the premises of `Appends` hold -/
+example : (∀ t ∈ [⟨⟨0, 4⟩, .word⟩, ⟨⟨4, 5⟩, .space 1⟩, ⟨⟨5, 7⟩, .word⟩, ⟨⟨7, 8⟩, .space 1⟩, ⟨⟨8, 10⟩, .word⟩, ⟨⟨10, 11⟩, .punct .Period⟩, ⟨⟨11, 13⟩, .paragraphBreak⟩], tokOK t = true ∧ t.span.stop ≤ 13) ∧
+    (∀ t ∈ [⟨⟨0, 4⟩, .word⟩, ⟨⟨4, 5⟩, .space 1⟩, ⟨⟨5, 7⟩, .word⟩, ⟨⟨7, 8⟩, .space 1⟩, ⟨⟨8, 10⟩, .word⟩], tokOK t = true) ∧
+    PRule.rule { env0 with wordFlags := fun w => if w == c!"go" then 128 else 0 } ⟨patHereby, specHereby⟩ ((c!"here by go." ++ ['\n', '\n']) ++ c!"here by go")
+      ([⟨⟨0, 4⟩, .word⟩, ⟨⟨4, 5⟩, .space 1⟩, ⟨⟨5, 7⟩, .word⟩, ⟨⟨7, 8⟩, .space 1⟩, ⟨⟨8, 10⟩, .word⟩, ⟨⟨10, 11⟩, .punct .Period⟩, ⟨⟨11, 13⟩, .paragraphBreak⟩] ++ shiftDoc 13 7 [⟨⟨0, 4⟩, .word⟩, ⟨⟨4, 5⟩, .space 1⟩, ⟨⟨5, 7⟩, .word⟩, ⟨⟨7, 8⟩, .space 1⟩, ⟨⟨8, 10⟩, .word⟩]) =
+      .ok [⟨⟨0, 7⟩, [.replaceWith c!"hereby"], 28, 0⟩, ⟨⟨13, 20⟩, [.replaceWith c!"hereby"], 28, 0⟩] := by decide
 theorem likewise_paragraphs_separately (env : Env) (cls : Cls) (P0 D : List Char) (k : Nat) (extP extD extPD : Ext)
     (h : ParagraphPair cls P0 D k extP extD extPD) :
     docRule cls extPD (PRule.rule env ⟨patLikewise, specLikewise⟩) ((P0 ++ List.replicate k '\n') ++ D) =
       joinE (P0 ++ List.replicate k '\n').length (docRule cls extP (PRule.rule env ⟨patLikewise, specLikewise⟩) (P0 ++ List.replicate k '\n'))
         (docRule cls extD (PRule.rule env ⟨patLikewise, specLikewise⟩) D) :=
   patternRule_paragraphs_separately env _ fineLikewise cls P0 D k extP extD extPD h
+/-- `Likewise` fires in both paragraphs: tokens tiling `like wise.¶¶` (the last one the `ParagraphBreak`) and `like wise`, the second list moved by 12 — the premises of `Appends` hold -/
+example : (∀ t ∈ [⟨⟨0, 4⟩, .word⟩, ⟨⟨4, 5⟩, .space 1⟩, ⟨⟨5, 9⟩, .word⟩, ⟨⟨9, 10⟩, .punct .Period⟩, ⟨⟨10, 12⟩, .paragraphBreak⟩], tokOK t = true ∧ t.span.stop ≤ 12) ∧
+    (∀ t ∈ [⟨⟨0, 4⟩, .word⟩, ⟨⟨4, 5⟩, .space 1⟩, ⟨⟨5, 9⟩, .word⟩], tokOK t = true) ∧
+    PRule.rule env0 ⟨patLikewise, specLikewise⟩ ((c!"like wise." ++ ['\n', '\n']) ++ c!"like wise")
+      ([⟨⟨0, 4⟩, .word⟩, ⟨⟨4, 5⟩, .space 1⟩, ⟨⟨5, 9⟩, .word⟩, ⟨⟨9, 10⟩, .punct .Period⟩, ⟨⟨10, 12⟩, .paragraphBreak⟩] ++ shiftDoc 12 5 [⟨⟨0, 4⟩, .word⟩, ⟨⟨4, 5⟩, .space 1⟩, ⟨⟨5, 9⟩, .word⟩]) =
+      .ok [⟨⟨0, 9⟩, [.replaceWith c!"likewise"], 29, 0⟩, ⟨⟨12, 21⟩, [.replaceWith c!"likewise"], 29, 0⟩] := by decide
 theorem nobody_paragraphs_separately (env : Env) (cls : Cls) (P0 D : List Char) (k : Nat) (extP extD extPD : Ext)
     (h : ParagraphPair cls P0 D k extP extD extPD) :
     docRule cls extPD (PRule.rule env ⟨patNobody, specNobody⟩) ((P0 ++ List.replicate k '\n') ++ D) =
       joinE (P0 ++ List.replicate k '\n').length (docRule cls extP (PRule.rule env ⟨patNobody, specNobody⟩) (P0 ++ List.replicate k '\n'))
         (docRule cls extD (PRule.rule env ⟨patNobody, specNobody⟩) D) :=
   patternRule_paragraphs_separately env _ fineNobody cls P0 D k extP extD extPD h
+/-- `Nobody` fires in both paragraphs: tokens tiling `no body cares.¶¶` (the last one the `ParagraphBreak`) and `no body cares`, the second list moved by 16 — the premises of `Appends` hold -/
+example : (∀ t ∈ [⟨⟨0, 2⟩, .word⟩, ⟨⟨2, 3⟩, .space 1⟩, ⟨⟨3, 7⟩, .word⟩, ⟨⟨7, 8⟩, .space 1⟩, ⟨⟨8, 13⟩, .word⟩, ⟨⟨13, 14⟩, .punct .Period⟩, ⟨⟨14, 16⟩, .paragraphBreak⟩], tokOK t = true ∧ t.span.stop ≤ 16) ∧
+    (∀ t ∈ [⟨⟨0, 2⟩, .word⟩, ⟨⟨2, 3⟩, .space 1⟩, ⟨⟨3, 7⟩, .word⟩, ⟨⟨7, 8⟩, .space 1⟩, ⟨⟨8, 13⟩, .word⟩], tokOK t = true) ∧
+    PRule.rule { env0 with wordFlags := fun w => if w == c!"cares" then 128 else 0 } ⟨patNobody, specNobody⟩ ((c!"no body cares." ++ ['\n', '\n']) ++ c!"no body cares")
+      ([⟨⟨0, 2⟩, .word⟩, ⟨⟨2, 3⟩, .space 1⟩, ⟨⟨3, 7⟩, .word⟩, ⟨⟨7, 8⟩, .space 1⟩, ⟨⟨8, 13⟩, .word⟩, ⟨⟨13, 14⟩, .punct .Period⟩, ⟨⟨14, 16⟩, .paragraphBreak⟩] ++ shiftDoc 16 7 [⟨⟨0, 2⟩, .word⟩, ⟨⟨2, 3⟩, .space 1⟩, ⟨⟨3, 7⟩, .word⟩, ⟨⟨7, 8⟩, .space 1⟩, ⟨⟨8, 13⟩, .word⟩]) =
+      .ok [⟨⟨0, 7⟩, [.replaceWith c!"nobody"], 30, 0⟩, ⟨⟨16, 23⟩, [.replaceWith c!"nobody"], 30, 0⟩] := by decide
 theorem whereas_paragraphs_separately (env : Env) (cls : Cls) (P0 D : List Char) (k : Nat) (extP extD extPD : Ext)
     (h : ParagraphPair cls P0 D k extP extD extPD) :
     docRule cls extPD (PRule.rule env ⟨patWhereas, specWhereas⟩) ((P0 ++ List.replicate k '\n') ++ D) =
       joinE (P0 ++ List.replicate k '\n').length (docRule cls extP (PRule.rule env ⟨patWhereas, specWhereas⟩) (P0 ++ List.replicate k '\n'))
         (docRule cls extD (PRule.rule env ⟨patWhereas, specWhereas⟩) D) :=
   patternRule_paragraphs_separately env _ fineWhereas cls P0 D k extP extD extPD h
+/-- `Whereas` fires in both paragraphs: tokens tiling `where as.¶¶` (the last one the `ParagraphBreak`) and `where as`, the second list moved by 11 — the premises of `Appends` hold -/
+example : (∀ t ∈ [⟨⟨0, 5⟩, .word⟩, ⟨⟨5, 6⟩, .space 1⟩, ⟨⟨6, 8⟩, .word⟩, ⟨⟨8, 9⟩, .punct .Period⟩, ⟨⟨9, 11⟩, .paragraphBreak⟩], tokOK t = true ∧ t.span.stop ≤ 11) ∧
+    (∀ t ∈ [⟨⟨0, 5⟩, .word⟩, ⟨⟨5, 6⟩, .space 1⟩, ⟨⟨6, 8⟩, .word⟩], tokOK t = true) ∧
+    PRule.rule env0 ⟨patWhereas, specWhereas⟩ ((c!"where as." ++ ['\n', '\n']) ++ c!"where as")
+      ([⟨⟨0, 5⟩, .word⟩, ⟨⟨5, 6⟩, .space 1⟩, ⟨⟨6, 8⟩, .word⟩, ⟨⟨8, 9⟩, .punct .Period⟩, ⟨⟨9, 11⟩, .paragraphBreak⟩] ++ shiftDoc 11 5 [⟨⟨0, 5⟩, .word⟩, ⟨⟨5, 6⟩, .space 1⟩, ⟨⟨6, 8⟩, .word⟩]) =
+      .ok [⟨⟨0, 8⟩, [.replaceWith c!"whereas"], 31, 0⟩, ⟨⟨11, 19⟩, [.replaceWith c!"whereas"], 31, 0⟩] := by decide
 theorem possessiveYour_paragraphs_separately (env : Env) (cls : Cls) (P0 D : List Char) (k : Nat) (extP extD extPD : Ext)
     (h : ParagraphPair cls P0 D k extP extD extPD) :
     docRule cls extPD (PRule.rule env ⟨patPossessiveYour, specPossessiveYour⟩) ((P0 ++ List.replicate k '\n') ++ D) =
       joinE (P0 ++ List.replicate k '\n').length (docRule cls extP (PRule.rule env ⟨patPossessiveYour, specPossessiveYour⟩) (P0 ++ List.replicate k '\n'))
         (docRule cls extD (PRule.rule env ⟨patPossessiveYour, specPossessiveYour⟩) D) :=
   patternRule_paragraphs_separately env _ finePossessiveYour cls P0 D k extP extD extPD h
+/-- `PossessiveYour` fires in both paragraphs: tokens tiling `you cat.¶¶` (the last one the `ParagraphBreak`) and `you cat`, the second list moved by 10 — the premises of `Appends` hold -/
+example : (∀ t ∈ [⟨⟨0, 3⟩, .word⟩, ⟨⟨3, 4⟩, .space 1⟩, ⟨⟨4, 7⟩, .word⟩, ⟨⟨7, 8⟩, .punct .Period⟩, ⟨⟨8, 10⟩, .paragraphBreak⟩], tokOK t = true ∧ t.span.stop ≤ 10) ∧
+    (∀ t ∈ [⟨⟨0, 3⟩, .word⟩, ⟨⟨3, 4⟩, .space 1⟩, ⟨⟨4, 7⟩, .word⟩], tokOK t = true) ∧
+    PRule.rule { env0 with wordFlags := fun w => if w == c!"cat" then 64 else 0 } ⟨patPossessiveYour, specPossessiveYour⟩ ((c!"you cat." ++ ['\n', '\n']) ++ c!"you cat")
+      ([⟨⟨0, 3⟩, .word⟩, ⟨⟨3, 4⟩, .space 1⟩, ⟨⟨4, 7⟩, .word⟩, ⟨⟨7, 8⟩, .punct .Period⟩, ⟨⟨8, 10⟩, .paragraphBreak⟩] ++ shiftDoc 10 5 [⟨⟨0, 3⟩, .word⟩, ⟨⟨3, 4⟩, .space 1⟩, ⟨⟨4, 7⟩, .word⟩]) =
+      .ok [⟨⟨0, 3⟩, [.replaceWith c!"your", .replaceWith ['y', 'o', 'u', '\'', 'r', 'e', ' ', 'a', 'n']], 32, 0⟩, ⟨⟨10, 13⟩, [.replaceWith c!"your", .replaceWith ['y', 'o', 'u', '\'', 'r', 'e', ' ', 'a', 'n']], 32, 0⟩] := by decide
 theorem multipleSequentialPronouns_paragraphs_separately (env : Env) (cls : Cls) (P0 D : List Char) (k : Nat) (extP extD extPD : Ext)
     (h : ParagraphPair cls P0 D k extP extD extPD) :
     docRule cls extPD (PRule.rule env ⟨patMultipleSequentialPronouns, specMultipleSequentialPronouns⟩) ((P0 ++ List.replicate k '\n') ++ D) =
       joinE (P0 ++ List.replicate k '\n').length (docRule cls extP (PRule.rule env ⟨patMultipleSequentialPronouns, specMultipleSequentialPronouns⟩) (P0 ++ List.replicate k '\n'))
         (docRule cls extD (PRule.rule env ⟨patMultipleSequentialPronouns, specMultipleSequentialPronouns⟩) D) :=
   patternRule_paragraphs_separately env _ fineMultipleSequentialPronouns cls P0 D k extP extD extPD h
+/-- `MultipleSequentialPronouns` fires in both paragraphs: tokens tiling `he she.¶¶` (the last one the `ParagraphBreak`) and `he she`, the second list moved by 9 — the premises of `Appends` hold -/
+example : (∀ t ∈ [⟨⟨0, 2⟩, .word⟩, ⟨⟨2, 3⟩, .space 1⟩, ⟨⟨3, 6⟩, .word⟩, ⟨⟨6, 7⟩, .punct .Period⟩, ⟨⟨7, 9⟩, .paragraphBreak⟩], tokOK t = true ∧ t.span.stop ≤ 9) ∧
+    (∀ t ∈ [⟨⟨0, 2⟩, .word⟩, ⟨⟨2, 3⟩, .space 1⟩, ⟨⟨3, 6⟩, .word⟩], tokOK t = true) ∧
+    PRule.rule env0 ⟨patMultipleSequentialPronouns, specMultipleSequentialPronouns⟩ ((c!"he she." ++ ['\n', '\n']) ++ c!"he she")
+      ([⟨⟨0, 2⟩, .word⟩, ⟨⟨2, 3⟩, .space 1⟩, ⟨⟨3, 6⟩, .word⟩, ⟨⟨6, 7⟩, .punct .Period⟩, ⟨⟨7, 9⟩, .paragraphBreak⟩] ++ shiftDoc 9 5 [⟨⟨0, 2⟩, .word⟩, ⟨⟨2, 3⟩, .space 1⟩, ⟨⟨3, 6⟩, .word⟩]) =
+      .ok [⟨⟨0, 6⟩, [.replaceWith c!"he", .replaceWith c!"she"], 33, 0⟩, ⟨⟨9, 15⟩, [.replaceWith c!"he", .replaceWith c!"she"], 33, 0⟩] := by decide
 theorem dotInitialisms_paragraphs_separately (env : Env) (cls : Cls) (P0 D : List Char) (k : Nat) (extP extD extPD : Ext)
     (h : ParagraphPair cls P0 D k extP extD extPD) :
     docRule cls extPD (PRule.rule env ⟨patDotInitialisms, specDotInitialisms⟩) ((P0 ++ List.replicate k '\n') ++ D) =
       joinE (P0 ++ List.replicate k '\n').length (docRule cls extP (PRule.rule env ⟨patDotInitialisms, specDotInitialisms⟩) (P0 ++ List.replicate k '\n'))
         (docRule cls extD (PRule.rule env ⟨patDotInitialisms, specDotInitialisms⟩) D) :=
   patternRule_paragraphs_separately env _ fineDotInitialisms cls P0 D k extP extD extPD h
+/-- `DotInitialisms` fires in both paragraphs: tokens tiling `ie..¶¶` (the last one the `ParagraphBreak`) and `ie.`, the second list moved by 6 — the premises of `Appends` hold -/
+example : (∀ t ∈ [⟨⟨0, 2⟩, .word⟩, ⟨⟨2, 4⟩, .punct .Ellipsis⟩, ⟨⟨4, 6⟩, .paragraphBreak⟩], tokOK t = true ∧ t.span.stop ≤ 6) ∧
+    (∀ t ∈ [⟨⟨0, 2⟩, .word⟩, ⟨⟨2, 3⟩, .punct .Period⟩], tokOK t = true) ∧
+    PRule.rule env0 ⟨patDotInitialisms, specDotInitialisms⟩ ((c!"ie.." ++ ['\n', '\n']) ++ c!"ie.")
+      ([⟨⟨0, 2⟩, .word⟩, ⟨⟨2, 4⟩, .punct .Ellipsis⟩, ⟨⟨4, 6⟩, .paragraphBreak⟩] ++ shiftDoc 6 3 [⟨⟨0, 2⟩, .word⟩, ⟨⟨2, 3⟩, .punct .Period⟩]) =
+      .ok [⟨⟨0, 4⟩, [.replaceWith c!"i.e."], 34, 0⟩, ⟨⟨6, 9⟩, [.replaceWith c!"i.e."], 34, 0⟩] := by decide
 theorem boringWords_paragraphs_separately (env : Env) (cls : Cls) (P0 D : List Char) (k : Nat) (extP extD extPD : Ext)
     (h : ParagraphPair cls P0 D k extP extD extPD) :
     docRule cls extPD (PRule.rule env ⟨patBoringWords, specBoringWords⟩) ((P0 ++ List.replicate k '\n') ++ D) =
       joinE (P0 ++ List.replicate k '\n').length (docRule cls extP (PRule.rule env ⟨patBoringWords, specBoringWords⟩) (P0 ++ List.replicate k '\n'))
         (docRule cls extD (PRule.rule env ⟨patBoringWords, specBoringWords⟩) D) :=
   patternRule_paragraphs_separately env _ fineBoringWords cls P0 D k extP extD extPD h
+/-- `BoringWords` fires in both paragraphs: tokens tiling `very.¶¶` (the last one the `ParagraphBreak`) and `very`, the second list moved by 7 — the premises of `Appends` hold -/
+example : (∀ t ∈ [⟨⟨0, 4⟩, .word⟩, ⟨⟨4, 5⟩, .punct .Period⟩, ⟨⟨5, 7⟩, .paragraphBreak⟩], tokOK t = true ∧ t.span.stop ≤ 7) ∧
+    (∀ t ∈ [⟨⟨0, 4⟩, .word⟩], tokOK t = true) ∧
+    PRule.rule env0 ⟨patBoringWords, specBoringWords⟩ ((c!"very." ++ ['\n', '\n']) ++ c!"very")
+      ([⟨⟨0, 4⟩, .word⟩, ⟨⟨4, 5⟩, .punct .Period⟩, ⟨⟨5, 7⟩, .paragraphBreak⟩] ++ shiftDoc 7 3 [⟨⟨0, 4⟩, .word⟩]) =
+      .ok [⟨⟨0, 4⟩, [], 35, 0⟩, ⟨⟨7, 11⟩, [], 35, 0⟩] := by decide
 theorem useGenitive_paragraphs_separately (env : Env) (cls : Cls) (P0 D : List Char) (k : Nat) (extP extD extPD : Ext)
     (h : ParagraphPair cls P0 D k extP extD extPD) :
     docRule cls extPD (PRule.rule env ⟨patUseGenitive, specUseGenitive⟩) ((P0 ++ List.replicate k '\n') ++ D) =
       joinE (P0 ++ List.replicate k '\n').length (docRule cls extP (PRule.rule env ⟨patUseGenitive, specUseGenitive⟩) (P0 ++ List.replicate k '\n'))
         (docRule cls extD (PRule.rule env ⟨patUseGenitive, specUseGenitive⟩) D) :=
   patternRule_paragraphs_separately env _ fineUseGenitive cls P0 D k extP extD extPD h
+/-- `UseGenitive` fires in both paragraphs: tokens tiling `see there dog.¶¶` (the last one the `ParagraphBreak`) and `see there dog`, the second list moved by 16 — the premises of `Appends` hold -/
+example : (∀ t ∈ [⟨⟨0, 3⟩, .word⟩, ⟨⟨3, 4⟩, .space 1⟩, ⟨⟨4, 9⟩, .word⟩, ⟨⟨9, 10⟩, .space 1⟩, ⟨⟨10, 13⟩, .word⟩, ⟨⟨13, 14⟩, .punct .Period⟩, ⟨⟨14, 16⟩, .paragraphBreak⟩], tokOK t = true ∧ t.span.stop ≤ 16) ∧
+    (∀ t ∈ [⟨⟨0, 3⟩, .word⟩, ⟨⟨3, 4⟩, .space 1⟩, ⟨⟨4, 9⟩, .word⟩, ⟨⟨9, 10⟩, .space 1⟩, ⟨⟨10, 13⟩, .word⟩], tokOK t = true) ∧
+    PRule.rule { env0 with wordFlags := fun w => if w == c!"dog" then 256 else 0 } ⟨patUseGenitive, specUseGenitive⟩ ((c!"see there dog." ++ ['\n', '\n']) ++ c!"see there dog")
+      ([⟨⟨0, 3⟩, .word⟩, ⟨⟨3, 4⟩, .space 1⟩, ⟨⟨4, 9⟩, .word⟩, ⟨⟨9, 10⟩, .space 1⟩, ⟨⟨10, 13⟩, .word⟩, ⟨⟨13, 14⟩, .punct .Period⟩, ⟨⟨14, 16⟩, .paragraphBreak⟩] ++ shiftDoc 16 7 [⟨⟨0, 3⟩, .word⟩, ⟨⟨3, 4⟩, .space 1⟩, ⟨⟨4, 9⟩, .word⟩, ⟨⟨9, 10⟩, .space 1⟩, ⟨⟨10, 13⟩, .word⟩]) =
+      .ok [⟨⟨4, 9⟩, [.replaceWith c!"their"], 36, 0⟩, ⟨⟨20, 25⟩, [.replaceWith c!"their"], 36, 0⟩] := by decide
 theorem thatWhich_paragraphs_separately (env : Env) (cls : Cls) (P0 D : List Char) (k : Nat) (extP extD extPD : Ext)
     (h : ParagraphPair cls P0 D k extP extD extPD) :
     docRule cls extPD (PRule.rule env ⟨patThatWhich, specThatWhich⟩) ((P0 ++ List.replicate k '\n') ++ D) =
       joinE (P0 ++ List.replicate k '\n').length (docRule cls extP (PRule.rule env ⟨patThatWhich, specThatWhich⟩) (P0 ++ List.replicate k '\n'))
         (docRule cls extD (PRule.rule env ⟨patThatWhich, specThatWhich⟩) D) :=
   patternRule_paragraphs_separately env _ fineThatWhich cls P0 D k extP extD extPD h
+/-- `ThatWhich` fires in both paragraphs: tokens tiling `that that.¶¶` (the last one the `ParagraphBreak`) and `that that`, the second list moved by 12 — the premises of `Appends` hold -/
+example : (∀ t ∈ [⟨⟨0, 4⟩, .word⟩, ⟨⟨4, 5⟩, .space 1⟩, ⟨⟨5, 9⟩, .word⟩, ⟨⟨9, 10⟩, .punct .Period⟩, ⟨⟨10, 12⟩, .paragraphBreak⟩], tokOK t = true ∧ t.span.stop ≤ 12) ∧
+    (∀ t ∈ [⟨⟨0, 4⟩, .word⟩, ⟨⟨4, 5⟩, .space 1⟩, ⟨⟨5, 9⟩, .word⟩], tokOK t = true) ∧
+    PRule.rule env0 ⟨patThatWhich, specThatWhich⟩ ((c!"that that." ++ ['\n', '\n']) ++ c!"that that")
+      ([⟨⟨0, 4⟩, .word⟩, ⟨⟨4, 5⟩, .space 1⟩, ⟨⟨5, 9⟩, .word⟩, ⟨⟨9, 10⟩, .punct .Period⟩, ⟨⟨10, 12⟩, .paragraphBreak⟩] ++ shiftDoc 12 5 [⟨⟨0, 4⟩, .word⟩, ⟨⟨4, 5⟩, .space 1⟩, ⟨⟨5, 9⟩, .word⟩]) =
+      .ok [⟨⟨0, 9⟩, [.replaceWith c!"that which"], 37, 0⟩, ⟨⟨12, 21⟩, [.replaceWith c!"that which"], 37, 0⟩] := by decide
 theorem somewhatSomething_paragraphs_separately (env : Env) (cls : Cls) (P0 D : List Char) (k : Nat) (extP extD extPD : Ext)
     (h : ParagraphPair cls P0 D k extP extD extPD) :
     docRule cls extPD (PRule.rule env ⟨patSomewhatSomething, specSomewhatSomething⟩) ((P0 ++ List.replicate k '\n') ++ D) =
       joinE (P0 ++ List.replicate k '\n').length (docRule cls extP (PRule.rule env ⟨patSomewhatSomething, specSomewhatSomething⟩) (P0 ++ List.replicate k '\n'))
         (docRule cls extD (PRule.rule env ⟨patSomewhatSomething, specSomewhatSomething⟩) D) :=
   patternRule_paragraphs_separately env _ fineSomewhatSomething cls P0 D k extP extD extPD h
+/-- `SomewhatSomething` fires in both paragraphs: tokens tiling `somewhat of a x.¶¶` (the last one the `ParagraphBreak`) and `somewhat of a`, the second list moved by 18 — the premises of `Appends` hold -/
+example : (∀ t ∈ [⟨⟨0, 8⟩, .word⟩, ⟨⟨8, 9⟩, .space 1⟩, ⟨⟨9, 11⟩, .word⟩, ⟨⟨11, 12⟩, .space 1⟩, ⟨⟨12, 13⟩, .word⟩, ⟨⟨13, 14⟩, .space 1⟩, ⟨⟨14, 16⟩, .word⟩, ⟨⟨16, 18⟩, .paragraphBreak⟩], tokOK t = true ∧ t.span.stop ≤ 18) ∧
+    (∀ t ∈ [⟨⟨0, 8⟩, .word⟩, ⟨⟨8, 9⟩, .space 1⟩, ⟨⟨9, 11⟩, .word⟩, ⟨⟨11, 12⟩, .space 1⟩, ⟨⟨12, 13⟩, .word⟩], tokOK t = true) ∧
+    PRule.rule env0 ⟨patSomewhatSomething, specSomewhatSomething⟩ ((c!"somewhat of a x." ++ ['\n', '\n']) ++ c!"somewhat of a")
+      ([⟨⟨0, 8⟩, .word⟩, ⟨⟨8, 9⟩, .space 1⟩, ⟨⟨9, 11⟩, .word⟩, ⟨⟨11, 12⟩, .space 1⟩, ⟨⟨12, 13⟩, .word⟩, ⟨⟨13, 14⟩, .space 1⟩, ⟨⟨14, 16⟩, .word⟩, ⟨⟨16, 18⟩, .paragraphBreak⟩] ++ shiftDoc 18 8 [⟨⟨0, 8⟩, .word⟩, ⟨⟨8, 9⟩, .space 1⟩, ⟨⟨9, 11⟩, .word⟩, ⟨⟨11, 12⟩, .space 1⟩, ⟨⟨12, 13⟩, .word⟩]) =
+      .ok [⟨⟨0, 8⟩, [.replaceWith c!"something"], 38, 0⟩, ⟨⟨18, 26⟩, [.replaceWith c!"something"], 38, 0⟩] := by decide
 theorem despiteOf_paragraphs_separately (env : Env) (cls : Cls) (P0 D : List Char) (k : Nat) (extP extD extPD : Ext)
     (h : ParagraphPair cls P0 D k extP extD extPD) :
     docRule cls extPD (PRule.rule env ⟨patDespiteOf, specDespiteOf⟩) ((P0 ++ List.replicate k '\n') ++ D) =
       joinE (P0 ++ List.replicate k '\n').length (docRule cls extP (PRule.rule env ⟨patDespiteOf, specDespiteOf⟩) (P0 ++ List.replicate k '\n'))
         (docRule cls extD (PRule.rule env ⟨patDespiteOf, specDespiteOf⟩) D) :=
   patternRule_paragraphs_separately env _ fineDespiteOf cls P0 D k extP extD extPD h
+/-- `DespiteOf` fires in both paragraphs: tokens tiling `despite of.¶¶` (the last one the `ParagraphBreak`) and `despite of`, the second list moved by 13 — the premises of `Appends` hold -/
+example : (∀ t ∈ [⟨⟨0, 7⟩, .word⟩, ⟨⟨7, 8⟩, .space 1⟩, ⟨⟨8, 10⟩, .word⟩, ⟨⟨10, 11⟩, .punct .Period⟩, ⟨⟨11, 13⟩, .paragraphBreak⟩], tokOK t = true ∧ t.span.stop ≤ 13) ∧
+    (∀ t ∈ [⟨⟨0, 7⟩, .word⟩, ⟨⟨7, 8⟩, .space 1⟩, ⟨⟨8, 10⟩, .word⟩], tokOK t = true) ∧
+    PRule.rule env0 ⟨patDespiteOf, specDespiteOf⟩ ((c!"despite of." ++ ['\n', '\n']) ++ c!"despite of")
+      ([⟨⟨0, 7⟩, .word⟩, ⟨⟨7, 8⟩, .space 1⟩, ⟨⟨8, 10⟩, .word⟩, ⟨⟨10, 11⟩, .punct .Period⟩, ⟨⟨11, 13⟩, .paragraphBreak⟩] ++ shiftDoc 13 5 [⟨⟨0, 7⟩, .word⟩, ⟨⟨7, 8⟩, .space 1⟩, ⟨⟨8, 10⟩, .word⟩]) =
+      .ok [⟨⟨0, 10⟩, [.replaceWith c!"despite", .replaceWith c!"in spite of"], 39, 0⟩, ⟨⟨13, 23⟩, [.replaceWith c!"despite", .replaceWith c!"in spite of"], 39, 0⟩] := by decide
 theorem chockFull_paragraphs_separately (env : Env) (cls : Cls) (P0 D : List Char) (k : Nat) (extP extD extPD : Ext)
     (h : ParagraphPair cls P0 D k extP extD extPD) :
     docRule cls extPD (PRule.rule env ⟨patChockFull, specChockFull⟩) ((P0 ++ List.replicate k '\n') ++ D) =
       joinE (P0 ++ List.replicate k '\n').length (docRule cls extP (PRule.rule env ⟨patChockFull, specChockFull⟩) (P0 ++ List.replicate k '\n'))
         (docRule cls extD (PRule.rule env ⟨patChockFull, specChockFull⟩) D) :=
   patternRule_paragraphs_separately env _ fineChockFull cls P0 D k extP extD extPD h
+/-- `ChockFull` fires in both paragraphs: tokens tiling `chalk full.¶¶` (the last one the `ParagraphBreak`) and `chalk full`, the second list moved by 13 — the premises of `Appends` hold -/
+example : (∀ t ∈ [⟨⟨0, 5⟩, .word⟩, ⟨⟨5, 6⟩, .space 1⟩, ⟨⟨6, 10⟩, .word⟩, ⟨⟨10, 11⟩, .punct .Period⟩, ⟨⟨11, 13⟩, .paragraphBreak⟩], tokOK t = true ∧ t.span.stop ≤ 13) ∧
+    (∀ t ∈ [⟨⟨0, 5⟩, .word⟩, ⟨⟨5, 6⟩, .space 1⟩, ⟨⟨6, 10⟩, .word⟩], tokOK t = true) ∧
+    PRule.rule env0 ⟨patChockFull, specChockFull⟩ ((c!"chalk full." ++ ['\n', '\n']) ++ c!"chalk full")
+      ([⟨⟨0, 5⟩, .word⟩, ⟨⟨5, 6⟩, .space 1⟩, ⟨⟨6, 10⟩, .word⟩, ⟨⟨10, 11⟩, .punct .Period⟩, ⟨⟨11, 13⟩, .paragraphBreak⟩] ++ shiftDoc 13 5 [⟨⟨0, 5⟩, .word⟩, ⟨⟨5, 6⟩, .space 1⟩, ⟨⟨6, 10⟩, .word⟩]) =
+      .ok [⟨⟨0, 10⟩, [.replaceWith c!"chock-full"], 40, 1⟩, ⟨⟨13, 23⟩, [.replaceWith c!"chock-full"], 40, 1⟩] := by decide
 theorem confident_paragraphs_separately (env : Env) (cls : Cls) (P0 D : List Char) (k : Nat) (extP extD extPD : Ext)
     (h : ParagraphPair cls P0 D k extP extD extPD) :
     docRule cls extPD (PRule.rule env ⟨patConfident, specConfident⟩) ((P0 ++ List.replicate k '\n') ++ D) =
       joinE (P0 ++ List.replicate k '\n').length (docRule cls extP (PRule.rule env ⟨patConfident, specConfident⟩) (P0 ++ List.replicate k '\n'))
         (docRule cls extD (PRule.rule env ⟨patConfident, specConfident⟩) D) :=
   patternRule_paragraphs_separately env _ fineConfident cls P0 D k extP extD extPD h
+/-- `Confident` fires in both paragraphs: tokens tiling `very confidant.¶¶` (the last one the `ParagraphBreak`) and `very confidant`, the second list moved by 17 — the premises of `Appends` hold -/
+example : (∀ t ∈ [⟨⟨0, 4⟩, .word⟩, ⟨⟨4, 5⟩, .space 1⟩, ⟨⟨5, 14⟩, .word⟩, ⟨⟨14, 15⟩, .punct .Period⟩, ⟨⟨15, 17⟩, .paragraphBreak⟩], tokOK t = true ∧ t.span.stop ≤ 17) ∧
+    (∀ t ∈ [⟨⟨0, 4⟩, .word⟩, ⟨⟨4, 5⟩, .space 1⟩, ⟨⟨5, 14⟩, .word⟩], tokOK t = true) ∧
+    PRule.rule env0 ⟨patConfident, specConfident⟩ ((c!"very confidant." ++ ['\n', '\n']) ++ c!"very confidant")
+      ([⟨⟨0, 4⟩, .word⟩, ⟨⟨4, 5⟩, .space 1⟩, ⟨⟨5, 14⟩, .word⟩, ⟨⟨14, 15⟩, .punct .Period⟩, ⟨⟨15, 17⟩, .paragraphBreak⟩] ++ shiftDoc 17 5 [⟨⟨0, 4⟩, .word⟩, ⟨⟨4, 5⟩, .space 1⟩, ⟨⟨5, 14⟩, .word⟩]) =
+      .ok [⟨⟨5, 14⟩, [.replaceWith c!"confident"], 41, 0⟩, ⟨⟨22, 31⟩, [.replaceWith c!"confident"], 41, 0⟩] := by decide
 theorem oxymorons_paragraphs_separately (env : Env) (cls : Cls) (P0 D : List Char) (k : Nat) (extP extD extPD : Ext)
     (h : ParagraphPair cls P0 D k extP extD extPD) :
     docRule cls extPD (PRule.rule env ⟨patOxymorons, specOxymorons⟩) ((P0 ++ List.replicate k '\n') ++ D) =
       joinE (P0 ++ List.replicate k '\n').length (docRule cls extP (PRule.rule env ⟨patOxymorons, specOxymorons⟩) (P0 ++ List.replicate k '\n'))
         (docRule cls extD (PRule.rule env ⟨patOxymorons, specOxymorons⟩) D) :=
   patternRule_paragraphs_separately env _ fineOxymorons cls P0 D k extP extD extPD h
+/-- `Oxymorons` fires in both paragraphs: tokens tiling `amateur expert.¶¶` (the last one the `ParagraphBreak`) and `amateur expert`, the second list moved by 17 — the premises of `Appends` hold -/
+example : (∀ t ∈ [⟨⟨0, 7⟩, .word⟩, ⟨⟨7, 8⟩, .space 1⟩, ⟨⟨8, 14⟩, .word⟩, ⟨⟨14, 15⟩, .punct .Period⟩, ⟨⟨15, 17⟩, .paragraphBreak⟩], tokOK t = true ∧ t.span.stop ≤ 17) ∧
+    (∀ t ∈ [⟨⟨0, 7⟩, .word⟩, ⟨⟨7, 8⟩, .space 1⟩, ⟨⟨8, 14⟩, .word⟩], tokOK t = true) ∧
+    PRule.rule env0 ⟨patOxymorons, specOxymorons⟩ ((c!"amateur expert." ++ ['\n', '\n']) ++ c!"amateur expert")
+      ([⟨⟨0, 7⟩, .word⟩, ⟨⟨7, 8⟩, .space 1⟩, ⟨⟨8, 14⟩, .word⟩, ⟨⟨14, 15⟩, .punct .Period⟩, ⟨⟨15, 17⟩, .paragraphBreak⟩] ++ shiftDoc 17 5 [⟨⟨0, 7⟩, .word⟩, ⟨⟨7, 8⟩, .space 1⟩, ⟨⟨8, 14⟩, .word⟩]) =
+      .ok [⟨⟨0, 14⟩, [], 42, 0⟩, ⟨⟨17, 31⟩, [], 42, 0⟩] := by decide
 theorem hedging_paragraphs_separately (env : Env) (cls : Cls) (P0 D : List Char) (k : Nat) (extP extD extPD : Ext)
     (h : ParagraphPair cls P0 D k extP extD extPD) :
     docRule cls extPD (PRule.rule env ⟨patHedging, specHedging⟩) ((P0 ++ List.replicate k '\n') ++ D) =
       joinE (P0 ++ List.replicate k '\n').length (docRule cls extP (PRule.rule env ⟨patHedging, specHedging⟩) (P0 ++ List.replicate k '\n'))
         (docRule cls extD (PRule.rule env ⟨patHedging, specHedging⟩) D) :=
   patternRule_paragraphs_separately env _ fineHedging cls P0 D k extP extD extPD h
+/-- `Hedging` fires in both paragraphs: tokens tiling `to a certain degree.¶¶` (the last one the `ParagraphBreak`) and `to a certain degree`, the second list moved by 22 — the premises of `Appends` hold -/
+example : (∀ t ∈ [⟨⟨0, 2⟩, .word⟩, ⟨⟨2, 3⟩, .space 1⟩, ⟨⟨3, 4⟩, .word⟩, ⟨⟨4, 5⟩, .space 1⟩, ⟨⟨5, 12⟩, .word⟩, ⟨⟨12, 13⟩, .space 1⟩, ⟨⟨13, 19⟩, .word⟩, ⟨⟨19, 20⟩, .punct .Period⟩, ⟨⟨20, 22⟩, .paragraphBreak⟩], tokOK t = true ∧ t.span.stop ≤ 22) ∧
+    (∀ t ∈ [⟨⟨0, 2⟩, .word⟩, ⟨⟨2, 3⟩, .space 1⟩, ⟨⟨3, 4⟩, .word⟩, ⟨⟨4, 5⟩, .space 1⟩, ⟨⟨5, 12⟩, .word⟩, ⟨⟨12, 13⟩, .space 1⟩, ⟨⟨13, 19⟩, .word⟩], tokOK t = true) ∧
+    PRule.rule env0 ⟨patHedging, specHedging⟩ ((c!"to a certain degree." ++ ['\n', '\n']) ++ c!"to a certain degree")
+      ([⟨⟨0, 2⟩, .word⟩, ⟨⟨2, 3⟩, .space 1⟩, ⟨⟨3, 4⟩, .word⟩, ⟨⟨4, 5⟩, .space 1⟩, ⟨⟨5, 12⟩, .word⟩, ⟨⟨12, 13⟩, .space 1⟩, ⟨⟨13, 19⟩, .word⟩, ⟨⟨19, 20⟩, .punct .Period⟩, ⟨⟨20, 22⟩, .paragraphBreak⟩] ++ shiftDoc 22 9 [⟨⟨0, 2⟩, .word⟩, ⟨⟨2, 3⟩, .space 1⟩, ⟨⟨3, 4⟩, .word⟩, ⟨⟨4, 5⟩, .space 1⟩, ⟨⟨5, 12⟩, .word⟩, ⟨⟨12, 13⟩, .space 1⟩, ⟨⟨13, 19⟩, .word⟩]) =
+      .ok [⟨⟨0, 19⟩, [], 43, 0⟩, ⟨⟨22, 41⟩, [], 43, 0⟩] := by decide
 theorem expandTimeShorthands_paragraphs_separately (env : Env) (cls : Cls) (P0 D : List Char) (k : Nat) (extP extD extPD : Ext)
     (h : ParagraphPair cls P0 D k extP extD extPD) :
     docRule cls extPD (PRule.rule env ⟨patExpandTimeShorthands, specExpandTimeShorthands⟩) ((P0 ++ List.replicate k '\n') ++ D) =
       joinE (P0 ++ List.replicate k '\n').length (docRule cls extP (PRule.rule env ⟨patExpandTimeShorthands, specExpandTimeShorthands⟩) (P0 ++ List.replicate k '\n'))
         (docRule cls extD (PRule.rule env ⟨patExpandTimeShorthands, specExpandTimeShorthands⟩) D) :=
   patternRule_paragraphs_separately env _ fineExpandTimeShorthands cls P0 D k extP extD extPD h
+/-- `ExpandTimeShorthands` fires in both paragraphs: tokens tiling `5 hrs.¶¶` (the last one the `ParagraphBreak`) and `5 hrs`, the second list moved by 8 — the premises of `Appends` hold -/
+example : (∀ t ∈ [⟨⟨0, 1⟩, .number 10 none⟩, ⟨⟨1, 2⟩, .space 1⟩, ⟨⟨2, 5⟩, .word⟩, ⟨⟨5, 6⟩, .punct .Period⟩, ⟨⟨6, 8⟩, .paragraphBreak⟩], tokOK t = true ∧ t.span.stop ≤ 8) ∧
+    (∀ t ∈ [⟨⟨0, 1⟩, .number 10 none⟩, ⟨⟨1, 2⟩, .space 1⟩, ⟨⟨2, 5⟩, .word⟩], tokOK t = true) ∧
+    PRule.rule env0 ⟨patExpandTimeShorthands, specExpandTimeShorthands⟩ ((c!"5 hrs." ++ ['\n', '\n']) ++ c!"5 hrs")
+      ([⟨⟨0, 1⟩, .number 10 none⟩, ⟨⟨1, 2⟩, .space 1⟩, ⟨⟨2, 5⟩, .word⟩, ⟨⟨5, 6⟩, .punct .Period⟩, ⟨⟨6, 8⟩, .paragraphBreak⟩] ++ shiftDoc 8 5 [⟨⟨0, 1⟩, .number 10 none⟩, ⟨⟨1, 2⟩, .space 1⟩, ⟨⟨2, 5⟩, .word⟩]) =
+      .ok [⟨⟨2, 5⟩, [.replaceWith c!"hours"], 44, 0⟩, ⟨⟨10, 13⟩, [.replaceWith c!"hours"], 44, 0⟩] := by decide
 theorem forNoun_paragraphs_separately (env : Env) (cls : Cls) (P0 D : List Char) (k : Nat) (extP extD extPD : Ext)
     (h : ParagraphPair cls P0 D k extP extD extPD) :
     docRule cls extPD (PRule.rule env ⟨patForNoun, specForNoun⟩) ((P0 ++ List.replicate k '\n') ++ D) =
       joinE (P0 ++ List.replicate k '\n').length (docRule cls extP (PRule.rule env ⟨patForNoun, specForNoun⟩) (P0 ++ List.replicate k '\n'))
         (docRule cls extD (PRule.rule env ⟨patForNoun, specForNoun⟩) D) :=
   patternRule_paragraphs_separately env _ fineForNoun cls P0 D k extP extD extPD h
+/-- `ForNoun` fires in both paragraphs: tokens tiling `fro sure.¶¶` (the last one the `ParagraphBreak`) and `fro sure`, the second list moved by 11 — the premises of `Appends` hold -/
+example : (∀ t ∈ [⟨⟨0, 3⟩, .word⟩, ⟨⟨3, 4⟩, .space 1⟩, ⟨⟨4, 8⟩, .word⟩, ⟨⟨8, 9⟩, .punct .Period⟩, ⟨⟨9, 11⟩, .paragraphBreak⟩], tokOK t = true ∧ t.span.stop ≤ 11) ∧
+    (∀ t ∈ [⟨⟨0, 3⟩, .word⟩, ⟨⟨3, 4⟩, .space 1⟩, ⟨⟨4, 8⟩, .word⟩], tokOK t = true) ∧
+    PRule.rule env0 ⟨patForNoun, specForNoun⟩ ((c!"fro sure." ++ ['\n', '\n']) ++ c!"fro sure")
+      ([⟨⟨0, 3⟩, .word⟩, ⟨⟨3, 4⟩, .space 1⟩, ⟨⟨4, 8⟩, .word⟩, ⟨⟨8, 9⟩, .punct .Period⟩, ⟨⟨9, 11⟩, .paragraphBreak⟩] ++ shiftDoc 11 5 [⟨⟨0, 3⟩, .word⟩, ⟨⟨3, 4⟩, .space 1⟩, ⟨⟨4, 8⟩, .word⟩]) =
+      .ok [⟨⟨0, 3⟩, [.replaceWith c!"for"], 45, 0⟩, ⟨⟨11, 14⟩, [.replaceWith c!"for"], 45, 0⟩] := by decide
 theorem theHowWhy_paragraphs_separately (env : Env) (cls : Cls) (P0 D : List Char) (k : Nat) (extP extD extPD : Ext)
     (h : ParagraphPair cls P0 D k extP extD extPD) :
     docRule cls extPD (PRule.rule env ⟨patTheHowWhy, specTheHowWhy⟩) ((P0 ++ List.replicate k '\n') ++ D) =
       joinE (P0 ++ List.replicate k '\n').length (docRule cls extP (PRule.rule env ⟨patTheHowWhy, specTheHowWhy⟩) (P0 ++ List.replicate k '\n'))
         (docRule cls extD (PRule.rule env ⟨patTheHowWhy, specTheHowWhy⟩) D) :=
   patternRule_paragraphs_separately env _ fineTheHowWhy cls P0 D k extP extD extPD h
+/-- `TheHowWhy` fires in both paragraphs: tokens tiling `the why x.¶¶` (the last one the `ParagraphBreak`) and `the why x`, the second list moved by 12 — the premises of `Appends` hold -/
+example : (∀ t ∈ [⟨⟨0, 3⟩, .word⟩, ⟨⟨3, 4⟩, .space 1⟩, ⟨⟨4, 7⟩, .word⟩, ⟨⟨7, 8⟩, .space 1⟩, ⟨⟨8, 10⟩, .word⟩, ⟨⟨10, 12⟩, .paragraphBreak⟩], tokOK t = true ∧ t.span.stop ≤ 12) ∧
+    (∀ t ∈ [⟨⟨0, 3⟩, .word⟩, ⟨⟨3, 4⟩, .space 1⟩, ⟨⟨4, 7⟩, .word⟩, ⟨⟨7, 8⟩, .space 1⟩, ⟨⟨8, 9⟩, .word⟩], tokOK t = true) ∧
+    PRule.rule env0 ⟨patTheHowWhy, specTheHowWhy⟩ ((c!"the why x." ++ ['\n', '\n']) ++ c!"the why x")
+      ([⟨⟨0, 3⟩, .word⟩, ⟨⟨3, 4⟩, .space 1⟩, ⟨⟨4, 7⟩, .word⟩, ⟨⟨7, 8⟩, .space 1⟩, ⟨⟨8, 10⟩, .word⟩, ⟨⟨10, 12⟩, .paragraphBreak⟩] ++ shiftDoc 12 6 [⟨⟨0, 3⟩, .word⟩, ⟨⟨3, 4⟩, .space 1⟩, ⟨⟨4, 7⟩, .word⟩, ⟨⟨7, 8⟩, .space 1⟩, ⟨⟨8, 9⟩, .word⟩]) =
+      .ok [⟨⟨0, 4⟩, [.remove], 46, 0⟩, ⟨⟨12, 16⟩, [.remove], 46, 0⟩] := by decide
 theorem widelyAccepted_paragraphs_separately (env : Env) (cls : Cls) (P0 D : List Char) (k : Nat) (extP extD extPD : Ext)
     (h : ParagraphPair cls P0 D k extP extD extPD) :
     docRule cls extPD (PRule.rule env ⟨patWidelyAccepted, specWidelyAccepted⟩) ((P0 ++ List.replicate k '\n') ++ D) =
       joinE (P0 ++ List.replicate k '\n').length (docRule cls extP (PRule.rule env ⟨patWidelyAccepted, specWidelyAccepted⟩) (P0 ++ List.replicate k '\n'))
         (docRule cls extD (PRule.rule env ⟨patWidelyAccepted, specWidelyAccepted⟩) D) :=
   patternRule_paragraphs_separately env _ fineWidelyAccepted cls P0 D k extP extD extPD h
+/-- `WidelyAccepted` fires in both paragraphs: tokens tiling `wide used.¶¶` (the last one the `ParagraphBreak`) and `wide used`, the second list moved by 12 — the premises of `Appends` hold -/
+example : (∀ t ∈ [⟨⟨0, 4⟩, .word⟩, ⟨⟨4, 5⟩, .space 1⟩, ⟨⟨5, 9⟩, .word⟩, ⟨⟨9, 10⟩, .punct .Period⟩, ⟨⟨10, 12⟩, .paragraphBreak⟩], tokOK t = true ∧ t.span.stop ≤ 12) ∧
+    (∀ t ∈ [⟨⟨0, 4⟩, .word⟩, ⟨⟨4, 5⟩, .space 1⟩, ⟨⟨5, 9⟩, .word⟩], tokOK t = true) ∧
+    PRule.rule env0 ⟨patWidelyAccepted, specWidelyAccepted⟩ ((c!"wide used." ++ ['\n', '\n']) ++ c!"wide used")
+      ([⟨⟨0, 4⟩, .word⟩, ⟨⟨4, 5⟩, .space 1⟩, ⟨⟨5, 9⟩, .word⟩, ⟨⟨9, 10⟩, .punct .Period⟩, ⟨⟨10, 12⟩, .paragraphBreak⟩] ++ shiftDoc 12 5 [⟨⟨0, 4⟩, .word⟩, ⟨⟨4, 5⟩, .space 1⟩, ⟨⟨5, 9⟩, .word⟩]) =
+      .ok [⟨⟨0, 4⟩, [.replaceWith c!"widely"], 47, 0⟩, ⟨⟨12, 16⟩, [.replaceWith c!"widely"], 47, 0⟩] := by decide
 
 /-! ## non-vacuity (kernel-evaluated) -/
 
@@ -237,6 +450,16 @@ example : docRule asciiCls noExt (PRule.rule env0 ⟨patDashes, specDashes⟩) [
       .ok [⟨⟨1, 3⟩, [.replaceWith ['–']], 21, 2⟩] ∧
     docRule asciiCls noExt (PRule.rule env0 ⟨patDashes, specDashes⟩) ['c', '-', '-', '-', 'd'] =
       .ok [⟨⟨1, 4⟩, [.replaceWith ['—']], 21, 3⟩] := by decide
+
+/-- `dashes_paragraphs_separately` applied to that pair: the theorem's equation, with both sides as computed above -/
+example : docRule asciiCls noExt (PRule.rule env0 ⟨patDashes, specDashes⟩) ((c!"a--b." ++ List.replicate 2 '\n') ++ c!"c---d") =
+    joinE 7 (.ok [⟨⟨1, 3⟩, [.replaceWith ['–']], 21, 2⟩]) (.ok [⟨⟨1, 4⟩, [.replaceWith ['—']], 21, 3⟩]) := by
+  have h := dashes_paragraphs_separately env0 asciiCls c!"a--b." c!"c---d" 2 noExt noExt noExt
+    (paragraphPair_ascii_noExt _ _ (by decide) (by decide) (by decide))
+  have hP : docRule asciiCls noExt (PRule.rule env0 ⟨patDashes, specDashes⟩) (c!"a--b." ++ List.replicate 2 '\n') =
+      .ok [⟨⟨1, 3⟩, [.replaceWith ['–']], 21, 2⟩] := by decide
+  have hD : docRule asciiCls noExt (PRule.rule env0 ⟨patDashes, specDashes⟩) c!"c---d" = .ok [⟨⟨1, 4⟩, [.replaceWith ['—']], 21, 3⟩] := by decide
+  rw [h, hP, hD]; rfl
 
 /-- Whereas with a two-token blank (space + newline) in the second paragraph: the lint covers the whole match -/
 example : docRule asciiCls noExt (PRule.rule env0 ⟨patWhereas, specWhereas⟩)
